@@ -3,49 +3,120 @@
 // Contracts for the verification machinery in /verif (comment-only; compiled only with -tags verif).
 package types
 
+
+// ---------------------------------------------------------------- abstract store (used by the keeper contracts)
+//
+// The byte-level contracts and lemmas below (property C18) license the abstraction functions bea_key / bea_prefix
+// from key bytes to the datatypes beacon.Key / beacon.Prefix; clauses marked `abstracts` state them and are NOT
+// checked against the bodies (they are listed as abstraction steps in the evidence).
+
+//@ prelude
+//@ ;;@ need-type github.com/unification-com/mainchain/x/beacon/types.Beacon
+//@ ;;@ need-type github.com/unification-com/mainchain/x/beacon/types.BeaconTimestamp
+//@ ;;@ need-type github.com/unification-com/mainchain/x/beacon/types.BeaconStorageLimit
+//@ ;;@ need-type github.com/unification-com/mainchain/x/beacon/types.Params
+//@ ;;@ need-marshal github.com/unification-com/mainchain/x/beacon/types.Beacon
+//@ ;;@ need-marshal github.com/unification-com/mainchain/x/beacon/types.BeaconTimestamp
+//@ ;;@ need-marshal github.com/unification-com/mainchain/x/beacon/types.BeaconStorageLimit
+//@ ;;@ need-marshal github.com/unification-com/mainchain/x/beacon/types.Params
+//@ (declare-datatypes ((beacon.Key 0)) (((kBeacon (kBeacon.id Int)) (kTs (kTs.id Int) (kTs.t Int)) (kBLimit (kBLimit.id Int)) (kBHighest) (kBParams) (kOtherB (kOtherB.n Int)))))
+//@ (declare-fun bea_key ((Slice Int)) beacon.Key)
+//@ (define-fun bcHas ((s (Array beacon.Key (Slice Int))) (id Int)) Bool (not (sl.nil (select s (kBeacon id)))))
+//@ (define-fun bcGet ((s (Array beacon.Key (Slice Int))) (id Int)) beacon.Beacon (unmarshal.beacon.Beacon (select s (kBeacon id))))
+//@ (define-fun bcPut ((s (Array beacon.Key (Slice Int))) (b beacon.Beacon)) (Array beacon.Key (Slice Int)) (store s (kBeacon (beacon.Beacon.BeaconId b)) (marshal.beacon.Beacon b)))
+//@ (define-fun tsHas ((s (Array beacon.Key (Slice Int))) (id Int) (t Int)) Bool (not (sl.nil (select s (kTs id t)))))
+//@ (define-fun tsGet ((s (Array beacon.Key (Slice Int))) (id Int) (t Int)) beacon.BeaconTimestamp (unmarshal.beacon.BeaconTimestamp (select s (kTs id t))))
+//@ (define-fun tsPut ((s (Array beacon.Key (Slice Int))) (id Int) (b beacon.BeaconTimestamp)) (Array beacon.Key (Slice Int)) (store s (kTs id (beacon.BeaconTimestamp.TimestampId b)) (marshal.beacon.BeaconTimestamp b)))
+//@ (define-fun tsDel ((s (Array beacon.Key (Slice Int))) (id Int) (t Int)) (Array beacon.Key (Slice Int)) (store s (kTs id t) nilBytes))
+//@ (define-fun blimHas ((s (Array beacon.Key (Slice Int))) (id Int)) Bool (not (sl.nil (select s (kBLimit id)))))
+//@ (define-fun blimGet ((s (Array beacon.Key (Slice Int))) (id Int)) Int (beacon.BeaconStorageLimit.InStateLimit (unmarshal.beacon.BeaconStorageLimit (select s (kBLimit id)))))
+//@ (define-fun unmarshalBLimit ((b (Slice Int))) beacon.BeaconStorageLimit (unmarshal.beacon.BeaconStorageLimit b))
+//@ (define-fun blimPut ((s (Array beacon.Key (Slice Int))) (id Int) (n Int)) (Array beacon.Key (Slice Int)) (store s (kBLimit id) (marshal.beacon.BeaconStorageLimit (mk.beacon.BeaconStorageLimit id n))))
+//@ (define-fun beaParamsSet ((s (Array beacon.Key (Slice Int)))) Bool (not (sl.nil (select s kBParams))))
+//@ (define-fun beaParams ((s (Array beacon.Key (Slice Int)))) beacon.Params (unmarshal.beacon.Params (select s kBParams)))
+//@ (define-fun beaParamsPut ((s (Array beacon.Key (Slice Int))) (p beacon.Params)) (Array beacon.Key (Slice Int)) (store s kBParams (marshal.beacon.Params p)))
+//@ (define-fun beaHighestSet ((s (Array beacon.Key (Slice Int)))) Bool (not (sl.nil (select s kBHighest))))
+//@ (define-fun beaHighestIs ((s (Array beacon.Key (Slice Int))) (v Int)) Bool (and (not (sl.nil (select s kBHighest))) (= (sl.len (select s kBHighest)) 8) (= (u64dec (select s kBHighest)) v)))
+//@ (define-fun mkTs ((t Int) (sub Int) (h Str)) beacon.BeaconTimestamp (mk.beacon.BeaconTimestamp t sub h))
+//@ ; identity of a registration: everything except the three counters
+//@ (define-fun bcSameIdentity ((a beacon.Beacon) (b beacon.Beacon)) Bool (and (= (beacon.Beacon.BeaconId a) (beacon.Beacon.BeaconId b)) (= (beacon.Beacon.Moniker a) (beacon.Beacon.Moniker b)) (= (beacon.Beacon.Name a) (beacon.Beacon.Name b)) (= (beacon.Beacon.RegTime a) (beacon.Beacon.RegTime b)) (= (beacon.Beacon.Owner a) (beacon.Beacon.Owner b))))
+//@ ; prefixes used for iteration and the iteration order inside a section (justified by the C18 prefix/order lemmas)
+//@ (declare-datatypes ((beacon.Prefix 0)) (((pTsOf (pTsOf.id Int)) (pAllTs) (pAllBeacons) (pOtherB (pOtherB.n Int)))))
+//@ (declare-fun bea_prefix ((Slice Int)) beacon.Prefix)
+//@ (define-fun bea_inprefix ((p beacon.Prefix) (k beacon.Key)) Bool
+//@   (ite ((_ is pTsOf) p) (and ((_ is kTs) k) (= (kTs.id k) (pTsOf.id p)))
+//@   (ite ((_ is pAllTs) p) ((_ is kTs) k)
+//@   (ite ((_ is pAllBeacons) p) ((_ is kBeacon) k) false))))
+//@ (define-fun bea_keylt ((a beacon.Key) (b beacon.Key)) Bool
+//@   (ite (and ((_ is kTs) a) ((_ is kTs) b)) (or (< (kTs.id a) (kTs.id b)) (and (= (kTs.id a) (kTs.id b)) (< (kTs.t a) (kTs.t b))))
+//@   (ite (and ((_ is kBeacon) a) ((_ is kBeacon) b)) (< (kBeacon.id a) (kBeacon.id b)) false)))
+//@ ; representation invariant of one registration (BEA-REC of DESIGN.md 3.2): the timestamps in state are exactly
+//@ ; the consecutive ids FirstIdInState..LastTimestampId, each stored under its own id
+//@ (define-fun BEA_INV ((s (Array beacon.Key (Slice Int))) (id Int)) Bool
+//@   (let ((b (bcGet s id)))
+//@    (and (= (beacon.Beacon.BeaconId b) id)
+//@         (blimHas s id) (<= 1 (blimGet s id))
+//@         (<= (beacon.Beacon.NumInState b) (blimGet s id))
+//@         (forall ((t Int)) (! (= (tsHas s id t) (and (>= (beacon.Beacon.NumInState b) 1) (<= (beacon.Beacon.FirstIdInState b) t) (<= t (beacon.Beacon.LastTimestampId b)))) :pattern ((select s (kTs id t)))))
+//@         (forall ((t Int)) (! (=> (tsHas s id t) (= (beacon.BeaconTimestamp.TimestampId (tsGet s id t)) t)) :pattern ((select s (kTs id t)))))
+//@         (=> (>= (beacon.Beacon.NumInState b) 1) (and (>= (beacon.Beacon.FirstIdInState b) 1) (= (beacon.Beacon.NumInState b) (+ (- (beacon.Beacon.LastTimestampId b) (beacon.Beacon.FirstIdInState b)) 1))))
+//@         (=> (= (beacon.Beacon.NumInState b) 0) (and (= (beacon.Beacon.FirstIdInState b) 0) (= (beacon.Beacon.LastTimestampId b) 0))))))
+//@ (define-fun BEA_ALL ((s (Array beacon.Key (Slice Int)))) Bool (forall ((i Int)) (! (=> (and (<= 0 i) (bcHas s i)) (BEA_INV s i)) :pattern ((select s (kBeacon i))))))
+//@ (define-fun BEA_FRESH ((s (Array beacon.Key (Slice Int)))) Bool
+//@   (and (=> (beaHighestSet s) (= (sl.len (select s kBHighest)) 8))
+//@        (forall ((i Int)) (! (=> (and (beaHighestSet s) (>= i (u64dec (select s kBHighest)))) (and (not (bcHas s i)) (not (blimHas s i)))) :pattern ((select s (kBeacon i))) :pattern ((select s (kBLimit i)))))
+//@        (forall ((i Int) (t Int)) (! (=> (and (beaHighestSet s) (>= i (u64dec (select s kBHighest)))) (not (tsHas s i t))) :pattern ((select s (kTs i t)))))))
+//@ end
+
 // ---------------------------------------------------------------- store keys (byte level)
 
 //@ func GetBeaconIDBytes(beaconID) (bz)
 //@   props C18
 //@   nopanic
 //@   ensures len(bz) == 8 && bz != nil && be64at(arr(bz), 0, beaconID)
+//@   abstracts u64dec(bz) == beaconID
 
 //@ func GetBeaconIDFromBytes(bz) (id)
 //@   props C18
 //@   requires len(bz) >= 8
 //@   nopanic
-//@   ensures be64at(arr(bz), 0, id)
+//@   ensures be64at(arr(bz), 0, id) && id == u64dec(bz)
 
 //@ func GetTimestampIDBytes(timestampID) (bz)
 //@   props C18
 //@   nopanic
 //@   ensures len(bz) == 8 && bz != nil && be64at(arr(bz), 0, timestampID)
+//@   abstracts u64dec(bz) == timestampID
 
 //@ func GetTimestampIDFromBytes(bz) (id)
 //@   props C18
 //@   requires len(bz) >= 8
 //@   nopanic
-//@   ensures be64at(arr(bz), 0, id)
+//@   ensures be64at(arr(bz), 0, id) && id == u64dec(bz)
 
 //@ func BeaconKey(id) (key)
 //@   props C18
 //@   nopanic
 //@   ensures len(key) == 9 && key != nil && key[0] == 1 && be64at(arr(key), 1, id)
+//@   abstracts bea_key(key) == kBeacon(id)
 
 //@ func BeaconAllTimestampsKey(id) (key)
 //@   props C18
 //@   nopanic
 //@   ensures len(key) == 9 && key != nil && key[0] == 2 && be64at(arr(key), 1, id)
+//@   abstracts bea_prefix(key) == pTsOf(id)
 
 //@ func BeaconStorageLimitKey(id) (key)
 //@   props C18
 //@   nopanic
 //@   ensures len(key) == 9 && key != nil && key[0] == 3 && be64at(arr(key), 1, id)
+//@   abstracts bea_key(key) == kBLimit(id)
 
 //@ func BeaconTimestampKey(beaconID, timestampID) (key)
 //@   props C18
 //@   nopanic
 //@   ensures len(key) == 17 && key != nil && key[0] == 2 && be64at(arr(key), 1, beaconID) && be64at(arr(key), 9, timestampID)
+//@   abstracts bea_key(key) == kTs(beaconID, timestampID)
 
 //@ lemma beacon_id_roundtrip [C18]
 //@   vars a uint64
@@ -131,3 +202,8 @@ package types
 //@   ensures @denom err == nil ==> validDenom(p.Denom)
 //@   ensures @fees_positive err == nil ==> p.FeeRegister >= 1 && p.FeeRecord >= 1 && p.FeePurchaseStorage >= 1
 //@   ensures @limits err == nil ==> p.DefaultStorageLimit >= 1 && p.MaxStorageLimit >= 1 && p.DefaultStorageLimit <= p.MaxStorageLimit
+
+//@ global ParamsKey abstracts bea_key(ParamsKey) == kBParams
+//@ global HighestBeaconIDKey abstracts bea_key(HighestBeaconIDKey) == kBHighest
+//@ global RegisteredBeaconPrefix abstracts bea_prefix(RegisteredBeaconPrefix) == pAllBeacons
+//@ global RecordedBeaconTimestampPrefix abstracts bea_prefix(RecordedBeaconTimestampPrefix) == pAllTs
